@@ -70,6 +70,8 @@ type Exec struct {
 	siteOcc   map[string]int
 	siteIndex map[ssa.Instruction]siteInfo
 	heldHavocked bool
+	// monitors whose lock was acquired (guarded fields were havocked)
+	monitorsAcquired map[string]bool
 	topFrame     *Frame
 	siteQualified map[ssa.Instruction]map[string]int
 	sitesHit  map[string]bool
@@ -750,6 +752,14 @@ func (ex *Exec) runFunc(fn *ssa.Function, args []Value, bind []Value, st *State,
 	ex.curFrame = fr
 	if top {
 		ex.topFrame = fr
+		if ex.contract != nil && ex.full {
+			for n, ls := range ex.contract.Loops {
+				if n < 0 || n >= len(loops) {
+					ex.contractProblem("%s: loop %d: %s has %d loop(s), numbered from 0", ex.contract.Pos, n, FuncName(fn), len(loops))
+				}
+				_ = ls
+			}
+		}
 	}
 	defer func() { ex.curFrame = saved }()
 
